@@ -64,10 +64,11 @@ def run_family(ctx, cfgs, mode="plain", select=None, sample=None, what="", worke
     return cases, res
 
 
-def foreign(ctx):
-    """C05: foreign encodings against an independent TLS stack."""
+def foreign(ctx, n=None, what="C05"):
+    """Foreign encodings (hellos the library's own parser never produced) against an independent TLS stack: forwarded byte for byte,
+    followed by exactly the client's remaining bytes."""
     f_out = ctx.path("foreign.ndjson")
-    n = 400 if ctx.quick else 20000
+    n = n or (400 if ctx.quick else 20000)
     rc, out = ctx.go_test("^TestForeignHellos$", env={"VH_OUT": f_out, "VH_N": n}, timeout=1200)
     res = vlib.read_ndjson(f_out)
     summ = [r for r in res if r.get("summary")]
@@ -79,7 +80,7 @@ def foreign(ctx):
         ctx.evaluations += 1
         ctx.distinct.add("foreign:" + r["key"])
         if r["diff"]:
-            ctx.violation("foreign:" + r["shape"], "C05 foreign hello: " + r["diff"][:300], r)
+            ctx.violation("foreign:" + r["shape"], what + " foreign hello: " + r["diff"][:300], r)
     ctx.notes["foreign"] = summ[0]
 
 
